@@ -104,6 +104,17 @@ CLAIMED = {
         'by the monitor (sent <= resolved ending, ending never relaxed, sent = pulled - held) and by framing predicted from the raw bytes.  Complete inputs only; fresh '
         'machines (cpppo dfas keep cycle/final from an earlier run, which leaks into .terminal for repeat=0 over a nested dfa - described in DESIGN.md).',
    technique='Coq proof (induction over interpreter fuel / operation histories) + model/implementation correspondence + runtime monitor', design='6 C10'),
+ 'C02': dict(
+   text='Coq theorems (Properties/C02.v) over the incremental framer (Model/Framing.v): feeding any sequence of received blocks equals framing the uncut stream; '
+        'everything emitted is a frame of exactly 24 + declared bytes and frames + unfinished remainder tile the stream; conversely any sequence of well-formed '
+        'frames, whatever their contents or what follows, is divided into exactly those frames; a stream ending after n bytes yields exactly the frames whose final '
+        'byte was delivered (a prefix of the full sequence; the next frame ends beyond n); for every request processor the session loop has the same effects and '
+        'replies for the same delivered bytes and never hands an unfinished frame to the processor.  Tie: the real enip_srv_tcp loop with the real logix.process on a '
+        'scripted connection (every two-way split, byte-at-a-time, random k-way, every truncation offset; tags read back over a second session), client.__next__ on '
+        'scripted recvfrom with the genuine reply streams, the dumped enip_machine graph through the engine interpreter, and three cuts against a real TCP listener.',
+   note='Trusted: Coq kernel; extraction + driver; recv()/recvfrom boundaries are scripted by replacing network.recv / client.recvfrom from outside (no source hooks); '
+        'bytes are modelled as non-negative integers; kernel socket behaviour, threads and the accept loop are exercised only by the TCP smoke run (not modelled).',
+   technique='Coq proof (fold/append lemmas, invariant of the byte-step framer, exactness by induction over frames) + model/implementation correspondence', design='6 C02'),
 }
 PENDING = {}
 ALL = ['C%02d' % i for i in range(1, 21)]
